@@ -77,6 +77,8 @@ static const char *garbage_value(const char *attr, char *tmp, size_t n)
   if (!strcmp(attr, "name") && hv_chance(&R, 2, 3)) { static const char *t[] = { "Capacity", "Locality", "Bandwidth", "Latency", "ReadBandwidth", "WriteLatency", "NVLinkBandwidth", "XGMIBandwidth", "XGMIHops", "NUMALatency", "MemoryTier", "CoreType", "FrequencyMaxMHz", "Backend", "hwlocVersion", "" }; return t[hv_below(&R, 16)]; }
   if (!strcmp(attr, "osdev_type")) { static const char *t[] = { "0", "1", "127", "128", "256", "4294967296", "18446744073709551615", "-1", "x" }; return t[hv_below(&R, 9)]; }
   if (!strcmp(attr, "version")) { static const char *t[] = { "1.0", "2.0", "2.1", "3.0", "3.1", "9.9", "0.0", "", "abc", "2", "3.0.0", "-3.0" }; return t[hv_below(&R, 12)]; }
+  /* under memcheck a multi-GB malloc costs as much resident shadow memory: the valgrind stage keeps matrix sizes small (the ASan stage covers the huge ones) */
+  if (!strcmp(attr, "nbobjs") && getenv("VERIF_NO_HUGE_ALLOC")) { static const char *t[] = { "0", "1", "2", "3", "5", "100", "-1", "", "x", "7-7" }; return t[hv_below(&R, 10)]; }
   if (!strcmp(attr, "length") || !strcmp(attr, "nbobjs") || !strcmp(attr, "depth") || !strcmp(attr, "cache_type") || !strcmp(attr, "bridge_type") || !strcmp(attr, "kind") || !strcmp(attr, "flags")) {
     static const char *t[] = { "0", "1", "2", "3", "5", "100", "1000000", "4294967295", "4294967297", "-1", "", "0-1", "1-0", "1-1", "7-7", "x" }; return t[hv_below(&R, 16)]; }
   if (hv_chance(&R, 1, 12)) { size_t l = 200 + (size_t)hv_below(&R, n - 201); memset(tmp, hv_chance(&R, 1, 2) ? '9' : 'f', l); tmp[l] = 0; return tmp; }
